@@ -841,7 +841,7 @@ func (t *termRenderer) term(s *pstate, v ssa.Value, d int) string {
 		}
 		return typeShort(x.Type()) + "#?" + x.Name()
 	case *ssa.FreeVar:
-		return "fv:" + x.Name()
+		return "fv:" + freeVarName(x)
 	case *ssa.Global:
 		return x.Pkg.Pkg.Name() + "." + x.Name()
 	case *ssa.Function:
@@ -1138,6 +1138,60 @@ func (t *termRenderer) literals(s *pstate, cond ssa.Value, pol bool) []string {
 		return []string{ts}
 	}
 	return []string{"!" + ts}
+}
+
+// freeVarName identifies a captured variable independently of its spelling when it is a parameter of the enclosing
+// function (captured directly or through its spill cell): "Type#ordinal" as for parameters; otherwise the source name.
+var fvNameMemo = map[*ssa.FreeVar]string{}
+
+func freeVarName(fv *ssa.FreeVar) string {
+	if n, ok := fvNameMemo[fv]; ok {
+		return n
+	}
+	name := fv.Name()
+	fn := fv.Parent()
+	parent := fn.Parent()
+	idx := -1
+	for i, v := range fn.FreeVars {
+		if v == fv {
+			idx = i
+		}
+	}
+	if parent != nil && idx >= 0 {
+		for _, b := range parent.Blocks {
+			for _, ins := range b.Instrs {
+				mc, ok := ins.(*ssa.MakeClosure)
+				if !ok || mc.Fn != fn || idx >= len(mc.Bindings) {
+					continue
+				}
+				bind := mc.Bindings[idx]
+				var par *ssa.Parameter
+				switch x := bind.(type) {
+				case *ssa.Parameter:
+					par = x
+				case *ssa.Alloc:
+					// the spill cell of a parameter: exactly one store, of the parameter, in the entry block
+					n := 0
+					for _, st := range storesInto(parent, x) {
+						n++
+						if p, isP := st.(*ssa.Parameter); isP {
+							par = p
+						}
+					}
+					if n != 1 {
+						par = nil
+					}
+				}
+				if par != nil {
+					if ps, ok := newTermRenderer(parent).paramStr[par]; ok {
+						name = ps
+					}
+				}
+			}
+		}
+	}
+	fvNameMemo[fv] = name
+	return name
 }
 
 // inlineOperand renders an operand of a one-comparison helper in the caller's terms: parameters become the call's
